@@ -8,8 +8,8 @@ import numpy as np
 import z3
 
 from .. import stubs
-from ..harness import Check, Enc, Obligation, all_eq, cells, symlike
-from ..jx2smt import root_key
+from ..harness import Check, Enc, Inconclusive, Obligation, all_eq, cells, symlike
+from ..jx2smt import NonFinite, root_key
 
 TECH = ("jaxpr of the real tau2_gibbs_kernel / finite_discrete_gibbs_kernel transition functions traced together with the model's log-probability (through LieselInterface) at symbolic "
         "values of the sampled variable; gamma / categorical samplers are contract stubs; interpreted over z3 reals; z3/nlsat decides each negated obligation")
@@ -124,7 +124,10 @@ def fd_scenario(chk, label, kind, outcomes, explicit):
     m_out = len(outcomes)
     if kind.startswith("FiniteDiscrete"):
         grid = lsl.Var(jnp.asarray(sorted(outcomes), dtype=jnp.float32), name="grid")
-        probs = lsl.Var(jnp.asarray(np.linspace(1, 2, m_out) / np.linspace(1, 2, m_out).sum(), dtype=jnp.float32), name="probs")
+        pv = np.linspace(1, 2, m_out) / np.linspace(1, 2, m_out).sum()
+        if kind.endswith("zero-prob"):
+            pv = np.array([0.25, 0.0] + [0.75 / (m_out - 2)] * (m_out - 2))       # a structural zero: the second outcome is impossible
+        probs = lsl.Var(jnp.asarray(pv, dtype=jnp.float32), name="probs")
         k = lsl.Var(1 if kind.endswith("int-initialised") else float(sorted(outcomes)[0]), lsl.Dist(tfd.FiniteDiscrete, outcomes=grid, probs=probs), name="k")
     else:
         probs = lsl.Var(jnp.asarray(0.7), name="probs")
@@ -138,6 +141,9 @@ def fd_scenario(chk, label, kind, outcomes, explicit):
     kern.set_model(iface)
     full0 = model.state
     free0 = {"probs_value": jnp.asarray(model.vars["probs"].value), "s_value": jnp.asarray(1.2), "y_value": jnp.asarray([0.5, 1.5])}
+    zero = kind.endswith("zero-prob")
+    if zero:
+        del free0["probs_value"]             # concrete prior probabilities (one of them exactly zero), scale and data symbolic
     outs = [float(o) for o in outcomes] if explicit else ([0.0, 1.0] if kind == "Bernoulli" else [float(o) for o in sorted(outcomes)])
     dt = np.asarray(model.vars["k"].value).dtype
     if any(float(o) != int(o) for o in outs):
@@ -153,13 +159,16 @@ def fd_scenario(chk, label, kind, outcomes, explicit):
     pre = "".join(ch for ch in label if ch.isalnum())
     sfv = symlike(free0, "fd" + pre)
     dom = {}
-    for c in cells(sfv["probs_value"]):
+    for c in (cells(sfv["probs_value"]) if not zero else []):
         dom[c.decl().name()] = (0.1, 0.6)
     dom[cells(sfv["s_value"])[0].decl().name()] = (0.6, 2.0)
-    enc = chk.note_enc(Enc(f"finite_discrete_gibbs_kernel[{label}]", f, (key, free0), (root_key("k"), sfv), key_roots={"k": key}, domain=dom))
-    pr = cells(sfv["probs_value"])
+    enc = chk.note_enc(Enc(f"finite_discrete_gibbs_kernel[{label}]", f, (key, free0), (root_key("k"), sfv), key_roots={"k": key}, domain=dom, **(dict(ext_real=True) if zero else {})))
+    pr = cells(sfv["probs_value"]) if not zero else []
     hyps = [c > 0 for c in pr] + [c < 1 for c in pr] + [cells(sfv["s_value"])[0] > 0]
     obs = []
+
+    def _ninf(x):
+        return isinstance(x, NonFinite) and x.x == float("-inf")
 
     def g_logits(V):
         if V.ncalls("categorical") != 1:
@@ -171,12 +180,42 @@ def fd_scenario(chk, label, kind, outcomes, explicit):
         lps = [cells(x)[0] for x in V.out["lps"]]
         tol = z3.RealVal("1/100000")
         gs_ = []
+        if zero:
+            # extended reals: the impossible outcome (log-probability -inf) gets the logit -inf, every other logit is a finite real;
+            # a NaN or +inf logit (e.g. from shifting by a non-finite amount) refutes the goal
+            fin = [j for j in range(len(outs)) if not isinstance(lps[j], NonFinite)]
+            if not fin or any(isinstance(lps[j], NonFinite) and not _ninf(lps[j]) for j in range(len(outs))):
+                raise Inconclusive("the oracle's own log-probabilities are NaN / +inf")
+            for j in range(len(outs)):
+                if (j in fin) != (not isinstance(logits[j], NonFinite)) or (j not in fin and not _ninf(logits[j])):
+                    return hyps, z3.BoolVal(False)
+            for j in fin[1:]:
+                d = (logits[j] - logits[fin[0]]) - (lps[j] - lps[fin[0]])
+                gs_.append(z3.And(d <= tol, d >= -tol))
+            return hyps, z3.And(*gs_)
         for j in range(1, len(outs)):
             d = (logits[j] - logits[0]) - (lps[j] - lps[0])
             gs_.append(z3.And(d <= tol, d >= -tol))
         return hyps, z3.And(*gs_)
+    def replay_zero(ob, model, rng):
+        """the real kernel, real categorical sampler (recorded), at the model's own values: no NaN / +inf logit, the impossible outcome is never drawn"""
+        st = iface.update_state({k_: v_ for k_, v_ in free0.items()}, full0)
+        lp = [float(np.asarray(iface.log_prob(iface.update_state({"k": jnp.asarray(o, dtype=dt)}, st)))) for o in outs]
+        imp = [outs[j] for j in range(len(outs)) if lp[j] == float("-inf")]
+        for sd in range(24):
+            with stubs.spy() as log:
+                with stub_categorical():
+                    pos = kern._transition_fn(jax.random.PRNGKey(sd), st)
+            lg = [np.asarray(a_[-1], dtype=float) for (nm, a_, o) in log if nm == "categorical"]
+            got = float(np.asarray(pos["k"]))
+            if any(np.isnan(x).any() or (x == np.inf).any() for x in lg) or got in imp:
+                return dict(reproduced=True, inputs=dict(key=[0, sd], outcomes=outs, model_log_prob_at_outcomes=[repr(v) for v in lp]),
+                            observed=dict(logits=[repr(float(v)) for v in lg[0]] if lg else None, drawn_value=got, impossible_outcomes=imp),
+                            note="NaN / +inf logits or a zero-probability outcome drawn")
+        return dict(reproduced=False, note="finite logits for the possible outcomes, -inf for the impossible one, never drawn over 24 keys")
+
     obs.append(Obligation(f"finite_discrete_gibbs_kernel[{label}]: categorical logits differ exactly by the model's log-probability at the outcomes they index "
-                          "(draw probabilities proportional to the joint density as a function of the variable alone)", [enc], g_logits, signature=f"fd:{label}:logits", timeout_s=120))
+                          "(draw probabilities proportional to the joint density as a function of the variable alone)", [enc], g_logits, signature=f"fd:{label}:logits", timeout_s=120, **(dict(replay=replay_zero) if zero else {})))
 
     def g_draw(V):
         a_, o_ = V.call("categorical")
@@ -219,7 +258,8 @@ def main():
         chk.validate(res[1])
     fds = [("FiniteDiscrete{0,1,2} from prior", "FiniteDiscrete", (0.0, 1.0, 2.0), False), ("Bernoulli from prior", "Bernoulli", (0, 1), False),
            ("Bernoulli outcomes=[1,0]", "Bernoulli", (1, 0), True), ("FiniteDiscrete outcomes=[2,0,1]", "FiniteDiscrete", (2.0, 0.0, 1.0), True),
-           ("FiniteDiscrete{0,.5,1,1.5}, variable initialised with an integer", "FiniteDiscrete/int-initialised", (0.0, 0.5, 1.0, 1.5), False)]
+           ("FiniteDiscrete{0,.5,1,1.5}, variable initialised with an integer", "FiniteDiscrete/int-initialised", (0.0, 0.5, 1.0, 1.5), False),
+           ("FiniteDiscrete{0,1,2} whose second outcome has prior probability exactly zero (extended reals)", "FiniteDiscrete/zero-prob", (0.0, 1.0, 2.0), False)]
     if chk.tier == "quick":
         fds = fds[:3] + fds[4:]
     for label, kind, outcomes, explicit in fds:
